@@ -599,8 +599,10 @@ def r04_14(ctx) -> None:
 
 
 def run(ctx) -> None:
+    from .common import member_crossing
+    ctx.guard(member_crossing, "R04.17", "jwe")  # named members are filled from the value of the same name (generic crossing rule, rules/common.py)
     from .common import forwarding_discipline
-    ctx.guard(forwarding_discipline, "R04.11", ['plaintext', 'recipient', 'enc', 'tag', 'cek', 'aad', 'iv', 'ek', 'sender_key', 'protected', 'header'], 65)  # arguments are handed on under their own name (generic routing rule, rules/common.py)
+    ctx.guard(forwarding_discipline, "R04.11", ['plaintext', 'recipient', 'enc', 'tag', 'cek', 'aad', 'iv', 'ek', 'sender_key', 'protected', 'header'], 65, "jwe")  # arguments are handed on under their own name (generic routing rule, rules/common.py)
     ctx.guard(r04_12)
     from .common import octet_length_lint
     ctx.guard(octet_length_lint, "R04.15")  # "every key of the required type, size and curve": P-521 coordinates are 66 octets
